@@ -67,6 +67,8 @@ type frame struct {
 	visits map[*ssa.BasicBlock]int
 	con    *Contract // contract of this frame's function if it is the verified one
 	top    bool
+	// closures of `entry(...)` invariants, applied in the state in which each loop was entered
+	loopEntry map[string]val
 }
 
 func (f *frame) clone() *frame {
@@ -75,6 +77,12 @@ func (f *frame) clone() *frame {
 		n.regs[k] = v
 	}
 	n.defers = append([]deferred(nil), f.defers...)
+	if f.loopEntry != nil {
+		n.loopEntry = make(map[string]val, len(f.loopEntry))
+		for k, v := range f.loopEntry {
+			n.loopEntry[k] = v
+		}
+	}
 	if f.visits != nil {
 		n.visits = map[*ssa.BasicBlock]int{}
 		for k, v := range f.visits {
@@ -1516,6 +1524,8 @@ func (x *ctx) indexAddr(st *state, fr *frame, in *ssa.IndexAddr) val {
 		if x.spec == 0 {
 			x.oblige(st, "in-bounds", "", in.Name(), and(x.binop(token.GEQ, ix, mkbv(0, 64), types.Typ[types.Int]).s, x.binop(token.LSS, ix, ln, types.Typ[types.Int]).s), "")
 			st.assume(and(x.binop(token.GEQ, ix, mkbv(0, 64), types.Typ[types.Int]).s, x.binop(token.LSS, ix, ln, types.Typ[types.Int]).s))
+			// facts established for an arbitrary index (skolem variable of type int) are used at this index
+			x.instantiateUniv(st, ix)
 		}
 		return val{ptr: &loc{base: base.t, idx: &ix, key: x.elemKey(elem), typ: elem}}
 	case *types.Pointer: // pointer to array
